@@ -2,7 +2,7 @@
 from .. import lib, runner
 
 PROP = "C13"
-THEOREMS = ["Ev.add_numbers_in_order", "Ev.index_stable", "Ev.index_dense", "Ev.frozen_refuses_add", "Ev.trg_by_mode", "Ev.pending_step", "Ev.never_lost", "Ev.line_iff", "Ev.bit_k_is_source_k"]
+THEOREMS = ["Ev.add_numbers_in_order", "Ev.index_stable", "Ev.index_dense", "Ev.frozen_refuses_add", "Ev.trg_by_mode", "Ev.pending_step", "Ev.never_lost", "Ev.line_iff", "Ev.bit_k_is_source_k", "Ev.cascade_pending_step", "Ev.cascade_propagates", "Ev.cascade_quiet"]
 IMPORTS = ["SocVerif.Props.C13"]
 
 
